@@ -21,7 +21,7 @@ Print Assumptions C18_run_wellformed.
 Theorem C18_unknown_flag_rejected : forall a r flags pos,
   let l := short_to_long a in
   String.eqb l "--" = false -> in_list l CLI_FLAGS = false ->
-  prefix "--throttle" l = false -> prefix "--init" l = false ->
+  prefix "--throttle" l = false -> prefix "--init=" l = false ->
   prefix "-" l = true -> Nat.ltb 1 (String.length l) = true ->
   scan (a :: r) false flags pos = inl ("Unrecognized flag: " ++ a).
 Proof. exact unknown_flag_rejected. Qed.
